@@ -9,7 +9,7 @@
        [e |-> "idle"]                the run reached quiescence: every thread finished or blocked for good with the
                                      scheduler idle (no timed wait pending)
    Lin is silent (at most one per call).  "deadlock", "exc", "steplimit" events are accepted by no action.     *)
-EXTENDS ScheduledObserver, TLCExt, IOUtils
+EXTENDS ScheduledObserver, TLCExt, IOUtils, Json
 
 CONSTANTS NTraces
 
